@@ -98,7 +98,13 @@ func propC15(g *G, n int) {
 // arguments for exp-like functions: moderate magnitudes, thresholds, tiny, exact integers
 func (g *G) expArg() dec {
 	switch g.pick(10) {
-	case 0: // integers
+	case 0: // integers: small ones, and every integer around the places where a result leaves the format
+		if g.chance(0.5) {
+			base := []int64{6111, 6144, 6145, 6176, 6177, 6211, 20300, 20414, 20516, 20630, 14071, 14221}[g.pick(12)]
+			v := base + int64(g.pick(81)-40)
+			z := g.pick(3) // also as 10v e-1, 100v e-2
+			return mk(g.chance(0.5), v*[]int64{1, 10, 100}[z], -z)
+		}
 		return mk(g.chance(0.5), int64(g.pick(130)), 0)
 	case 1: // near the overflow/underflow thresholds
 		base := []int64{14220, 14221, 14071, 14072, 20415, 20516, 6111, 6112, 6144, 6145, 6176, 6177, 6200, 6211, 20000}[g.pick(15)]
